@@ -1,10 +1,93 @@
 import Driver.Common
-/-! C13 driver (stub: answers bad-op until the property's model is wired in). -/
-open Driver
+import Sourmash.Model.Md5Cache
+/-! C13 driver.  model column: what the sketch model (with its md5 cache field) answers;
+spec column: for `md5`/`cmd5`/`clone`/`copy` the MD5 of the preimage of the sketch's CURRENT hashes,
+for `eq` "equal exactly when ksize and hashes agree".  A stale cache in the real code therefore shows
+as an oracle failure. -/
+open Driver Md5Cache
 
-def stepC13 (s : Unit) (ws : List String) : Unit × Resp :=
+inductive Pair
+  | v (p : VPair)
+  | t (p : TPair)
+
+structure DSt where
+  ok : Bool := Md5.selfTest          -- RFC 1321 vectors, evaluated at start-up
+  p : Pair := .v ⟨MH.Vec.new 0 0 false, MH.Vec.new 0 0 false⟩
+
+def kvGet (ws : List String) (key : String) : Nat :=
+  match ws.filterMap (fun w => match w.splitOn "=" with
+      | [k, v] => if k == key then v.toNat? else none
+      | _ => none) with
+  | n :: _ => n
+  | [] => 0
+
+def parseOp (op : String) (args : List String) : Option Op :=
+  match op, args with
+  | "add", [h, a] => some (.add h.toNat! a.toNat!)
+  | "set", [h, a] => some (.set h.toNat! a.toNat!)
+  | "rm", [h] => some (.remove h.toNat!)
+  | "rmmany", [hs] => some (.removeMany (natList hs))
+  | "clear", [] => some .clear
+  | "merge", [] => some .merge
+  | "enable", [] => some .enable
+  | "disable", [] => some .disable
+  | "inflate", [] => some .inflate
+  | "md5", [] => some .md5
+  | "cmd5", [] => some .md5
+  | "clone", [] => some .clone
+  | "copy", [] => some .copy
+  | _, _ => none
+
+def showOut : Out → String
+  | .mins l => "mins=" ++ showNats l
+  | .err e => "err " ++ e
+  | .digest d => Md5.hex d
+  | .bool b => if b then "true" else "false"
+  | .badOp => "bad-op"
+
+/-- (ksize, hashes) of the sketch an observer op reports on, after the op -/
+def Pair.subject (p : Pair) (onOther : Bool) (op : Op) : Nat × List Nat :=
+  -- `copy` reports the md5 of the copy, which sits in the other slot
+  let other := match op with
+    | .copy => !onOther
+    | _ => onOther
+  match p with
+  | .v q => let s := if other then q.other else q.main; (s.ksize, s.mins)
+  | .t q => let s := if other then q.other else q.main; (s.ksize, s.mins)
+
+def Pair.step (p : Pair) (c : Cmd) : Pair × Out :=
+  match p with
+  | .v q => let r := q.step c; (.v r.1, r.2)
+  | .t q => let r := q.step c; (.t r.1, r.2)
+
+def stepC13 (s : DSt) (ws : List String) : DSt × Resp :=
+  if !s.ok then (s, { model := "MD5-SELFTEST-FAILED" }) else
   match ws with
-  | "case" :: _ => (s, { model := "ok" })
+  | "case" :: _ :: ty :: rest =>
+    let num := kvGet rest "num"; let mh := kvGet rest "mh"; let k := kvGet rest "k"
+    let track := kvGet rest "track" == 1; let otrack := kvGet rest "otrack" == 1
+    let p : Pair := if ty == "tree" then .t ⟨MH.Tree.new num mh track k, MH.Tree.new num mh otrack k⟩
+      else .v ⟨MH.Vec.new num mh track k, MH.Vec.new num mh otrack k⟩
+    ({ s with p := p }, { model := "ok" })
+  | ["eq"] =>
+    let (p', out) := s.p.step .eq
+    let (k1, m1) := p'.subject false .md5
+    let (k2, m2) := p'.subject true .md5
+    ({ s with p := p' }, { model := showOut out, spec := if k1 == k2 && m1 == m2 then "true" else "false" })
+  | w :: args =>
+    let (onOther, opName) := match w.splitOn "." with
+      | ["o", op] => (true, op)
+      | _ => (false, w)
+    match parseOp opName args with
+    | none => (s, { model := "bad-op" })
+    | some op =>
+      -- the C API entry point exists for the vector type only
+      if opName == "cmd5" && (match s.p with | .t _ => true | .v _ => false) then (s, { model := "bad-op" }) else
+      let (p', out) := s.p.step (.on onOther op)
+      let spec := match out with
+        | .digest _ => let (k, m) := p'.subject onOther op; Md5.hex (Md5.digest k m)
+        | _ => "-"
+      ({ s with p := p' }, { model := showOut out, spec := spec })
   | _ => (s, { model := "bad-op" })
 
-def main : IO Unit := Driver.run () stepC13
+def main : IO Unit := Driver.run ({} : DSt) stepC13
